@@ -105,6 +105,9 @@ type interpreter struct {
 	killing      bool
 	preempts     int
 	randDraws    int
+	randLog      []randEnt // draws since verifRandMark (replayed after verifRandRewind)
+	randLogging  bool
+	randReplay   int // index of the next logged draw to deliver again, -1 when not replaying
 	pendingAbort interface{}
 	hostDone     chan struct{}
 	wgs          map[*value]*wgState
